@@ -83,7 +83,7 @@ func recipeOf(f *core.Func) hashRecipe {
 func c20(c *core.Ctx) {
 	_ = c.P
 	c.Explain = "Static necessary conditions for swamp addressing: the server-side and SDK-side island functions hash the same field concatenation with the same hash and both apply '% N + 1' (range 1..N, agreement); every index/slice expression of the path functions is discharged by dominating guards (computing the location cannot panic for any depth / folders-per-level); the addressing functions read only the name and their parameters (no clock, randomness, environment, map iteration)."
-	c.NotCovered = []string{"hash collisions between different names", "N == 0 (division by zero is the caller's contract)", "the per-object cache returning a value computed for a different N", "client routing table contents"}
+	c.NotCovered = []string{"hash collisions between different names", "N == 0 (division by zero is the caller's contract)", "the per-object cache returning a value computed for a different N", "contents of the client routing table (which server is registered for which island); decided only: lookups go through the table under the name's island"}
 
 	rAgree := c.Rule("C20.agree", "app/name.GetFolderNumber and sdk name.GetIslandID hash the same ordered fields with xxhash.Sum64 and both compute hash % N + 1", 3)
 	srv := c.Fn(pkgName + ".name.GetFolderNumber")
@@ -93,6 +93,107 @@ func c20(c *core.Ctx) {
 		"both hash "+strings.Join(rs.fields, "+"), "server hashes ["+strings.Join(rs.fields, "+")+"] but SDK hashes ["+strings.Join(rk.fields, "+")+"]: client and server disagree on the island")
 	rAgree.Check(rs.modParm && rs.plusOne, srv.Key+":range", srv.Decl.Pos(), "hash % N + 1", "server island is not hash % N + 1 (result outside 1..N)")
 	rAgree.Check(rk.modParm && rk.plusOne, sdk.Key+":range", sdk.Decl.Pos(), "hash % N + 1", "SDK island is not hash % N + 1 (result outside 1..N)")
+
+	// C20.route: the SDK sends a swamp to the server that owns the name's island.
+	rRoute := c.Rule("C20.route", "every function of the SDK client that resolves a swamp name to a server connection returns, besides nil, only a value read from the island->server table under the key GetIslandID(total islands) of that name: a shortcut that answers without hashing the name (single server, cached last answer) sends a swamp to a server that does not own its island", 2)
+	{
+		p := c.P
+		const pkgSDKClient = "sdk/client"
+		nameNamed := p.Named(pkgSDKName, "Name")
+		n := 0
+		for _, f := range p.FuncsIn(pkgSDKClient) {
+			if f.Decl.Body == nil || f.Decl.Recv == nil || nameNamed == nil {
+				continue
+			}
+			sig := f.Obj.Type().(*types.Signature)
+			if sig.Params().Len() != 1 || !types.Identical(sig.Params().At(0).Type(), nameNamed) || sig.Results().Len() != 1 {
+				continue
+			}
+			rt := sig.Results().At(0).Type()
+			if _, isBasic := rt.Underlying().(*types.Basic); isBasic {
+				continue
+			}
+			info := f.Info()
+			nameParam := sig.Params().At(0)
+			n++
+			c.Touch(f)
+			// island keys: locals defined as <nameParam>.GetIslandID(...)
+			islandKey := map[types.Object]bool{}
+			// table values: locals defined from  <recv>.<mapField>[islandKey]
+			tableVal := map[types.Object]bool{}
+			ast.Inspect(f.Decl.Body, func(x ast.Node) bool {
+				var lhs, rhs []ast.Expr
+				switch v := x.(type) {
+				case *ast.AssignStmt:
+					lhs, rhs = v.Lhs, v.Rhs
+				default:
+					return true
+				}
+				if len(rhs) != 1 {
+					return true
+				}
+				r := core.Unparen(rhs[0])
+				if call, ok := r.(*ast.CallExpr); ok {
+					if fo := core.Callee(info, call); fo != nil && fo.Name() == "GetIslandID" && core.ObjOf(info, core.RecvExpr(call)) == nameParam {
+						if o := core.ObjOf(info, lhs[0]); o != nil {
+							islandKey[o] = true
+						}
+					}
+				}
+				if ix, ok := r.(*ast.IndexExpr); ok {
+					if _, isMap := info.TypeOf(ix.X).Underlying().(*types.Map); isMap && core.FieldOf(info, ix.X) != nil && islandKey[core.ObjOf(info, ix.Index)] {
+						if o := core.ObjOf(info, lhs[0]); o != nil {
+							tableVal[o] = true
+						}
+					}
+				}
+				return true
+			})
+			var bad *ast.ReturnStmt
+			ast.Inspect(f.Decl.Body, func(x ast.Node) bool {
+				if _, isLit := x.(*ast.FuncLit); isLit {
+					return false
+				}
+				ret, ok := x.(*ast.ReturnStmt)
+				if !ok || len(ret.Results) != 1 {
+					return true
+				}
+				e := core.Unparen(ret.Results[0])
+				if core.IsNilIdent(info, e) {
+					return true
+				}
+				// strip field selections / address-of:  v.GrpcClient, &v, v
+				for {
+					switch v := e.(type) {
+					case *ast.SelectorExpr:
+						e = core.Unparen(v.X)
+						continue
+					case *ast.UnaryExpr:
+						e = core.Unparen(v.X)
+						continue
+					case *ast.StarExpr:
+						e = core.Unparen(v.X)
+						continue
+					}
+					break
+				}
+				if o := core.ObjOf(info, e); o == nil || !tableVal[o] {
+					if bad == nil {
+						bad = ret
+					}
+				}
+				return true
+			})
+			if bad != nil {
+				rRoute.Bad(f.Key+":returns-the-island-owner", bad.Pos(), "this return hands out a server connection that was not read from the island table under the name's island: the swamp is routed to a server that may not own it (the request still carries the true island ID, and the sibling lookup disagrees)")
+			} else {
+				rRoute.Ok(f.Key+":returns-the-island-owner", f.Decl.Pos(), "every non-nil result comes from table[GetIslandID(name)]")
+			}
+		}
+		if n == 0 {
+			rRoute.Bad(pkgSDKClient+":name-resolvers", token.NoPos, "no function of the SDK client resolves a name to a connection (rule needs review)")
+		}
+	}
 
 	p := c.P
 	rFN := c.Rule("C20.fullname", "the location of a swamp is computed from its full name: every string handed to a hashing helper by GetFullHashPath is the accumulated path field (the field each builder step extends with the next part), not a single part of the name - two different names must not share a location because they share a part", 2)
